@@ -404,6 +404,16 @@ async def run_lists(backend, counters):
                                   % (backend, name, len(got_allow), len(want_allow | static), sorted(x[:8] for x in (want_allow | static) - got_allow), sorted(x[:8] for x in got_allow - (want_allow | static))), "replay": rp})
             elif got_allow - static:
                 viols.append({"key": "lists/allow-content/%s" % name, "msg": "[%s] %s: allow list holds keys from nowhere: %s" % (backend, name, sorted(x[:8] for x in got_allow - static)), "replay": rp})
+            # the N-th refresh gives the same lists as the first (the store did not change)
+            for rep in (2, 3, 4):
+                await builder.run_once()
+                lc["builds"] = lc.get("builds", 0) + 1
+                again = {b.hex() for b in dynamic_lists.ALLOWED_PUBKEYS}
+                if again != got_allow:
+                    viols.append({"key": "lists/allow-content-changes-on-refresh/%s" % name,
+                                  "msg": "[%s] %s: refresh number %d of an unchanged store changed the allow list: lost %s, gained %s (static keys: %s)"
+                                         % (backend, name, rep, sorted(x[:8] for x in got_allow - again), sorted(x[:8] for x in again - got_allow), sorted(x[:8] for x in static)), "replay": rp})
+                    break
             if got_deny != ptags(deny_src):
                 viols.append({"key": "lists/deny-content/%s" % name, "msg": "[%s] %s: deny list %s, expected %s" % (backend, name, sorted(x[:8] for x in got_deny), sorted(x[:8] for x in ptags(deny_src))), "replay": rp})
             # a restart: the lists are built by the builder's own start(), as web.start_mainprocess_tasks does,
